@@ -372,9 +372,17 @@ impl<T: Qcow2IoOps> Qcow2Dev<T> {
                 // recover to previous compressed mapping & free allocated
                 // clusters
                 let allocated_cls = data_mapping.cluster_offset.unwrap();
+                let key = allocated_cls >> info.cluster_bits();
+                // Somebody (settle_new_clusters) may still hold a handle of
+                // this cluster's entry in the new set: it must not take the
+                // entry for an unstarted one and zero the cluster once it
+                // has been handed to its next owner.
+                let stale = self.new_cluster.read().await.get(&key).cloned();
+                if let Some(entry) = stale {
+                    *entry.write().await = true;
+                }
+                self.clear_new_cluster(key).await;
                 self.free_clusters(allocated_cls, 1).await?;
-                self.clear_new_cluster(allocated_cls >> info.cluster_bits())
-                    .await;
 
                 l2_table.set(
                     split.l2_slice_index(info),
